@@ -317,3 +317,32 @@ PROPS["C03"] = dict(
     stages=[corr_stage("C03F", 2000, 40000, params=None, feature=feat_c03, tparams={"maxlen": 4}),
             corr_stage("BUFK1", 300, 5000, feature=feat_buf("C03"), params={"salt": 3, "cleaner": 1})],
 )
+
+
+def feat_c19(tok):
+    if tok[0] != "K1": return None
+    body = tok[tok.index("#") + 1:]; bar = body.index("|"); op, out = body[:bar], body[bar + 1:]
+    cfg = tok[3:tok.index("#")]
+    shape, i, n = [], 1, int(op[0])
+    for _ in range(n):
+        kind, m = op[i], int(op[i + 1]); i += 2; vals = []
+        for _ in range(m):
+            vals.append(op[i] + ("n" if op[i + 1] == "1" else "")); i += 3
+        shape.append(kind + ":" + ",".join(vals))
+    nf = int(cfg[0]); sig = cfg[:nf + 3] + cfg[nf + 3::3]
+    if out[0] == "0" and out[1] == "1" and int(out[2]) >= 1: return "inv:" + " ".join(sig) + "|" + ";".join(shape)
+    if out[0] == "1" and len(op) > 3: return "err:" + " ".join(sig) + "|" + ";".join(shape)
+    return None
+
+def thorough_only(stage):
+    def run(ctx):
+        if ctx.tier_budget == "thorough": stage(ctx)
+    return run
+
+PROPS["C19"] = dict(
+  level_text="Theorems (Properties/C19.v): over universally quantified reflect tables (Kind, AssignableTo assumed reflexive, Elem), for every signature, user function and option list the Call pipeline of the current tree (fixed = true) equals 'if valid then invoke exactly once with exactly the given arguments (variadic expansion, untyped nil = zero value of a nilable parameter) and store exactly the returned values, else error with no invocation and no store'; never a panic. The pipeline before commit cba04f9 is refuted (C19_nil_refuted, C19_current_panic_classes: nil argument, nil target, omitted CallArgs, >128 variadic arguments). Tie: K1 differential runs of the real Call against the extracted model instantiated with the tables reflect itself reports.",
+  level_note="Trusted: Coq kernel, extraction, OCaml adapter (value observation encoding), Go harness; reflect modelled (panic conditions of Type/Value methods, FuncOf limit 128). CallArgsRaw/CallResultsRaw out of scope.",
+  rule="signatures built with reflect.FuncOf/MakeFunc over a 32-type universe; EXHAUSTIVE: one argument (16 param types x 55 pool values incl. untyped nil and typed nils, plain and variadic), one result x every pool value as CallResults/CallResultsSlice target, two arguments over reduced pools (quick) / full pools (thorough, 774,400 cases), length sweeps incl. omitted CallArgs, 100..200 variadic arguments; plus seeded arity 0..4 cases, 25% malformed. Every record decided by the extracted model; monitors: no panic, error => not invoked and targets untouched, nil error => invoked once with exactly the given arguments and targets equal to a direct reflect call. non-trivial = invoked with >=1 argument, or an error for a call with arguments/targets; distinct by signature + option shapes",
+  stages=[corr_stage("C19K1", 3000, 100000, feature=feat_c19, seeds=3),
+          thorough_only(corr_stage("C19K1", 1, 1, params={"part": "a2full"}, feature=feat_c19))],
+)
